@@ -167,4 +167,30 @@ example : exP.g ≠ 1 ∧ exP.min ≤ fin (floorTo 8 exP.g) ∧ fin (floorTo 8 e
 example : (cd exP exSt.pool.supply 5).isFin = true := by decide +kernel
 example : (Standardiser.read exP (incrN exP (write exP exSt 5) 1 4)).2 = fin 9 := by decide +kernel
 
+/-! ### every supply, the infinite ones included -/
+
+/-- at a finite supply the extended definitions are the ordinary ones -/
+theorem cdE_fin (p : Params) (s v : Rat) : cdE p (fin s) v = cd p s v := by
+  unfold cdE cd winLoE winHiE winLo winHi clampO
+  simp only [Option.getD_some, decide_eq_true_eq]
+  rfl
+
+theorem fwdE_fin (p : Params) (s v : Rat) : fwdE p (fin s) v = fwd p s v := by
+  unfold fwdE fwd; simp only [cdE_fin]
+
+/-- whatever supply the pool reports - finite or infinite - the forwarded demand lies within
+[minimum, maximum] -/
+theorem fwdE_mem_minmax (p : Params) (hp : p.ok) (s : ERat) (v : Rat) :
+    p.min ≤ fwdE p s v ∧ fwdE p s v ≤ p.max := by
+  unfold fwdE cdE
+  split_ifs <;> exact ⟨clamp_ge _ hp.1, clamp_le _ hp.1⟩
+
+/-- with an infinite supply and the default (infinite) backlog the window imposes nothing from
+below: a value that minimum / maximum admit is forwarded as it is (granularity 1) -/
+theorem fwdE_pinf_free (p : Params) (v : Rat) (hg : p.g = 1) (hb : p.backlog = pinf)
+    (h1 : p.min ≤ fin v) (h2 : fin v ≤ p.max) : fwdE p pinf v = fin v := by
+  unfold fwdE cdE winLoE winHiE clampO
+  simp only [hg, hb, ne_eq, not_true_eq_false, if_false]
+  cases hs : p.surplus <;> simp [clamp_id h1 h2]
+
 end Cobald.Props.C06
